@@ -1608,8 +1608,54 @@ func (fr *Frame) runDefers(st *State, g string) *State {
 	// executed in reverse order of registration; each Defer instruction is assumed to run at most once
 	for i := len(fr.defers) - 1; i >= 0; i-- {
 		d := fr.defers[i]
-		if li := fr.inLoop(d.block); li {
-			panic(unsupported("defer inside a loop"))
+		if fr.inLoop(d.block) {
+			// a defer statement inside a loop registers an unknown number of calls: at exit the
+			// callee's effects and modifies are havoc'ed (its ensures are not used)
+			callee := d.instr.Call.StaticCallee()
+			var fc *FuncContract
+			if callee != nil {
+				fc = fr.vc.eng.contractFor(callee)
+				if fc == nil {
+					fc = fr.vc.eng.lookupExtern(canonFunc(callee), "extern")
+				}
+			}
+			if fc == nil {
+				panic(unsupported("defer inside a loop of a callee without contract"))
+			}
+			fr.vc.note("defer of %s inside a loop in %s: executed an unknown number of times at exit (effects/modifies havoc'ed)", fc.Name, fr.fn.String())
+			names := map[string]bool{}
+			allGhost := false
+			for _, e := range fc.Effects {
+				if e == "*" {
+					allGhost = true
+					continue
+				}
+				cnt, tm, avs := fr.vc.effectVars(e)
+				names[cnt], names[tm] = true, true
+				for _, a := range avs {
+					names[a] = true
+				}
+			}
+			for _, eu := range fc.EmitsEff {
+				cnt, tm, avs := fr.vc.effectVars(eu.Name)
+				names[cnt], names[tm] = true, true
+				for _, a := range avs {
+					names[a] = true
+				}
+			}
+			names[fr.vc.clkVar()] = true
+			heaps := false
+			for _, m := range fc.Modifies {
+				if m != "" && m != "nothing" {
+					heaps = true
+				}
+			}
+			for n := range names {
+				fr.recordWrite(n)
+			}
+			fr.recordHavocAll(heaps, allGhost)
+			st = st.havoc(fr.vc.fresh("deferloop"), names, heaps, allGhost)
+			continue
 		}
 		cg := and(g, d.guard)
 		st2, _ := fr.callCommon(st, cg, d.instr, &d.instr.Call, d.instr.Pos(), d.args)
